@@ -993,3 +993,20 @@ func (bt *Built) CoqInput(entry string, menv string) string {
 
 // CoqPeerList prints a peer list.
 func CoqPeerList(ps []*metapb.Peer) string { return coqPeers(ps) }
+
+// FaultCluster is the mock cluster with an id allocator that fails on demand (round 8): from its FailFrom-th call on
+// AllocID returns an error, the way the real allocator does when the etcd transaction extending its window fails.
+type FaultCluster struct {
+	*mockcluster.Cluster
+	FailFrom int // 1-based; 0 = never
+	Calls    int
+}
+
+// AllocID allocates an id or fails.
+func (c *FaultCluster) AllocID() (uint64, error) {
+	c.Calls++
+	if c.FailFrom > 0 && c.Calls >= c.FailFrom {
+		return 0, fmt.Errorf("id allocator: etcd transaction failed (injected)")
+	}
+	return c.Cluster.AllocID()
+}
